@@ -310,6 +310,9 @@ def _guarded_by_truth(node, name):
     while p is not None:
         if isinstance(p, ast.If) and dotted(p.test) == name and any(in_subtree(node, b) for b in p.body):
             return True
+        if isinstance(p, ast.If) and isinstance(p.test, ast.BoolOp) and isinstance(p.test.op, ast.And) \
+                and any(dotted(v) == name for v in p.test.values) and any(in_subtree(node, b) for b in p.body):
+            return True         # `if <name> and <other>:` (nested ifs merged)
         if isinstance(p, ast.If) and isinstance(p.test, ast.UnaryOp) and isinstance(p.test.op, ast.Not) and dotted(p.test.operand) == name \
                 and any(in_subtree(node, b) for b in p.orelse):
             return True         # the else side of `if not <name>` (elif chains keep this spelling)
